@@ -65,6 +65,7 @@ fn child_run(args: &[String]) -> i32 {
     append_lines(&out, &[json!({"ev":"note","what":"opdone"}).to_string()]);
     let _ = run.drain_io();
     let mut marks: Vec<usize> = vec![run.io_log_all.len()];
+    let mut marks_seq: Vec<u64> = vec![verif::io_counter()];
     for op in beh.ops.iter() {
         if run.dead {
             break;
@@ -77,6 +78,7 @@ fn child_run(args: &[String]) -> i32 {
         if at == 0 {
             let _ = run.drain_io();
             marks.push(run.io_log_all.len());
+            marks_seq.push(verif::io_counter());
         }
     }
     if let (0, Some(path)) = (at, dump_io.as_ref()) {
@@ -102,11 +104,13 @@ fn child_run(args: &[String]) -> i32 {
                 if r.kind == "uring_submit" {
                     n = r.len;
                 }
-                evs.push(json!({"seq": r.seq, "kind": r.kind, "n": n}));
+                let base = std::path::Path::new(&r.path).file_name().map(|x| x.to_string_lossy().into_owned()).unwrap_or_default();
+                let wal = !base.is_empty() && base.chars().all(|c| c.is_ascii_digit());
+                evs.push(json!({"seq": r.seq, "kind": r.kind, "n": n, "wal": wal}));
             }
             i += 1;
         }
-        append_lines(&out, &[json!({"ev":"note","what":"iolog","total": verif::io_counter(), "events": evs}).to_string()]);
+        append_lines(&out, &[json!({"ev":"note","what":"iolog","total": verif::io_counter(), "events": evs, "marks_seq": marks_seq}).to_string()]);
     }
     // leave without a clean shutdown: a completed run followed by a crash at "N+1"
     std::io::stdout().flush().ok();
@@ -267,6 +271,8 @@ pub fn main(args: &[String]) -> i32 {
         let dry = read_lines(&dry_out);
         let _ = std::fs::remove_dir_all(&dry_dir);
         let iolog = dry.iter().rev().find(|e| e["what"] == "iolog").cloned();
+        let marks_seq: Vec<u64> = iolog.as_ref().and_then(|l| l["marks_seq"].as_array().cloned()).unwrap_or_default()
+            .iter().map(|x| x.as_u64().unwrap_or(0)).collect();
         let (total, events) = match iolog {
             Some(l) => (l["total"].as_u64().unwrap_or(0), l["events"].as_array().cloned().unwrap_or_default()),
             None => {
@@ -299,8 +305,37 @@ pub fn main(args: &[String]) -> i32 {
             // operation in flight = last opstart without opdone
             let mut inflight_op: Option<Value> = None;
             let mut lines: Vec<String> = Vec::new();
+            // WAL data writes of the operation the crash falls into: how many there are and how many were made
+            // before the process died (entries of an io_uring submission: the ones selected by the mask)
+            let (mut w_total, mut w_done) = (0u64, 0u64);
+            if let Some(j) = marks_seq.iter().position(|&ms| ms >= k) {
+                let lo = if j == 0 { 0 } else { marks_seq[j - 1] };
+                let hi = marks_seq[j];
+                for e in events.iter() {
+                    let sq = e["seq"].as_u64().unwrap_or(0);
+                    if sq <= lo || sq > hi {
+                        continue;
+                    }
+                    let kind = e["kind"].as_str().unwrap_or("");
+                    if kind == "write" && e["wal"].as_bool().unwrap_or(false) {
+                        w_total += 1;
+                        if sq < k {
+                            w_done += 1;
+                        }
+                    } else if kind == "uring_submit" {
+                        let n = e["n"].as_u64().unwrap_or(0);
+                        w_total += n;
+                        if sq < k {
+                            w_done += n;
+                        } else if sq == k {
+                            w_done += (m & ((1u64 << n.min(63)) - 1)).count_ones() as u64;
+                        }
+                    }
+                }
+            }
             lines.push(json!({"ev":"reset","g":format!("{}@{}m{}", beh.id, k, m),"mode":beh.cfg.mode,"pe":beh.cfg.pe.max(1),"mb":g.max_batch,
-                               "backend":beh.cfg.backend,"geom": if g.tiny {"tiny"} else {"real"},"crash_at":k,"mask":m,"child_rc":rc}).to_string());
+                               "backend":beh.cfg.backend,"geom": if g.tiny {"tiny"} else {"real"},"crash_at":k,"mask":m,"child_rc":rc,
+                               "op_writes_total":w_total,"op_writes_done":w_done}).to_string());
             let mut pending: Vec<String> = Vec::new();
             for e in evs.iter() {
                 if e["ev"] == "note" && e["what"] == "opstart" {
